@@ -121,7 +121,7 @@ MsgArg(kind, nfr, tag) == [kind |-> kind, nfr |-> nfr, tag |-> tag]
 
 (* ---------------------- inner (StreamCore) steps --------------------------- *)
 InnerEn(t) == LET th == thr[t] e == EpOf(t) IN
-    InCall(th) /\ th.in.pc \notin {"tw", "um"} /\ En(S(e, th.sid), th.in, wr[e])
+    InCall(th) /\ th.in.pc \notin {"tw", "um", "ma"} /\ En(S(e, th.sid), th.in, wr[e])
 
 InnerStep(t) ==
     /\ InnerEn(t)
@@ -428,7 +428,8 @@ StartOp(t, op, r) ==
                  [] op = "Send2" -> Call(base, "MsgSend", MsgArg("Message", 2, Tag(r, nst + 1)), "op.done")
                  [] op = "Recv" -> Call(base, "MsgRecv", NONE, "op.done")
                  [] op = "CloseSend" -> Call(base, "CloseSend", NONE, "op.done")
-                 [] op = "Close" -> Call(base, "Close", NONE, "op.done"))
+                 [] op = "Close" -> Call(base, "Close", NONE, "op.done")
+                 [] op = "SendErr" -> Call(base, "SendError", [tag |-> "ce" \o ToString(r), gate |-> GateU], "op.done"))
     /\ Mark /\ Hist([k |-> "op", t |-> t, op |-> op, r |-> r])
     /\ UNCHANGED <<mgr, str, wr, net, rbuf, tp, rpc, nrpc, sctx, connmu, wire, hmeta>>
 
@@ -449,7 +450,7 @@ HStep(a) ==
                    [] a = "send2" -> Call(th, "MsgSend", MsgArg("Message", 2, "s" \o Tag(sid, nst + 1)), "h.done")
                    [] a = "closesend" -> Call(th, "CloseSend", NONE, "h.done")
                    [] a = "retnil" -> Call(th, "CloseSend", NONE, "sv.finr")
-                   [] a = "reterr" -> Call(th, "SendError", [tag |-> "e" \o ToString(sid)], "sv.finr"))
+                   [] a = "reterr" -> Call(th, "SendError", [tag |-> "e" \o ToString(sid), gate |-> FALSE], "sv.finr"))
     /\ Mark /\ Hist([k |-> "hstep", a |-> a])
     /\ UNCHANGED <<mgr, str, wr, net, rbuf, tp, rpc, nrpc, sctx, connmu, wire, hmeta>>
 
@@ -511,9 +512,16 @@ RelU(t) ==
     /\ Mark /\ Hist([k |-> "relu", t |-> t])
     /\ UNCHANGED <<mgr, str, wr, net, rbuf, tp, rpc, nrpc, sctx, connmu, wire, hmeta>>
 
+RelM(t) ==
+    /\ Bound /\ "relu" \in StimKinds
+    /\ thr[t].in.pc = "ma"
+    /\ thr' = [thr EXCEPT ![t].in = MADone(thr[t].in)]
+    /\ Mark /\ Hist([k |-> "relm", t |-> t])
+    /\ UNCHANGED <<mgr, str, wr, net, rbuf, tp, rpc, nrpc, sctx, connmu, wire, hmeta>>
+
 Controllable ==
     \/ \E t \in CliThreads, op \in {"Invoke", "NewStream"}, md \in {NONE, "M1", "M2"} : StartRPC(t, op, md)
-    \/ \E t \in CliThreads, op \in {"Send1", "Send2", "Recv", "CloseSend", "Close"}, r \in Sids : StartOp(t, op, r)
+    \/ \E t \in CliThreads, op \in {"Send1", "Send2", "Recv", "CloseSend", "Close", "SendErr"}, r \in Sids : StartOp(t, op, r)
     \/ \E t \in CliThreads : StartClose(t)
     \/ \E a \in HActs : HStep(a)
     \/ \E e \in Eps, how \in {"ok", "err"} : RelW(e, how)
@@ -523,6 +531,7 @@ Controllable ==
     \/ \E e \in Eps : Fault(e)
     \/ \E t \in AppThreads : RelPoint(t)
     \/ \E t \in AppThreads : RelU(t)
+    \/ \E t \in AppThreads : RelM(t)
 
 (* ------------------------------ next state ----------------------------------- *)
 Internal ==
@@ -548,6 +557,7 @@ AppObs(t) == LET th == thr[t] IN
       [] th.opc = "done" -> "done:" \o th.res
       [] th.in.pc = "tw" -> "tw"
       [] th.in.pc = "um" -> "um"
+      [] th.in.pc = "ma" -> "ma"
       [] th.opc \in {"pt.created", "pt.beforeset", "pt.metaw"} -> "pt"
       [] th.opc = "h.wait" -> "h:" \o th.res
       [] OTHER -> "blk"
